@@ -83,6 +83,14 @@ def cases(tier):
             c["max_states"] = 16
             c["orders"] = 1
             yield c
+    for pre, eff in (("(and (>= (f) (- 0 (g ?y))))", "(and (increase (f) (- 0 (g ?x))))"),
+                     ("(and (< (- 0 (f)) (+ 0 (g ?x))))", "(and (assign (g ?x) (- (g ?x) 0)) (when (r) (decrease (f) (- 0 1))))"),
+                     ("(and (> (* 1 (f)) (/ (g ?y) 1)))", "(and (assign (f) (* (g ?x) 1)))")):
+        c = vdom.program("xy", pre, eff, ["const", "identity-operands"])
+        c["kind"] = "generated"
+        c["max_states"] = 16
+        c["orders"] = 1
+        yield c
     for rel in shipped_domains():
         yield {"kind": "shipped", "file": rel, "tags": ["shipped"], "pre": rel, "eff": "", "profile": "shipped"}
 
